@@ -313,3 +313,46 @@ func VerifC07_TwoChannels() {
 	}
 	vReach("end")
 }
+
+// VerifC07_TwoChannelsInFlight: channel A's downstream call is still in flight (held by the
+// fake downstream) while channel B's pack is serialized and sent through the same writer:
+// the bytes of each request still decode to that request's own messages.
+func VerifC07_TwoChannelsInFlight() {
+	c07Marshalled = nil
+	h := newWHandler()
+	bArrived := make(chan struct{})
+	decodedColl := map[string]string{}
+	h.onResult = func(kind string, n int) error {
+		p := h.calls[len(h.calls)-1].param.(*api.ReplicateMessageParam)
+		if p.ChannelName == "chB" {
+			close(bArrived)
+		} else {
+			<-bArrived // A's call returns only after B's request has been built and sent
+		}
+		// what the downstream reads from the request when it finally processes it
+		if len(p.MsgsBytes) >= 1 {
+			if m, ok := c07Decode("Insert", false, p.MsgsBytes[0]).(*msgpb.InsertRequest); ok && m != nil {
+				decodedColl[p.ChannelName] = m.GetCollectionName()
+			}
+		}
+		p.TargetMsgPosition = base64.StdEncoding.EncodeToString([]byte("pos-" + p.ChannelName))
+		return nil
+	}
+	w := wNewWriter(h, &wMeta{}, nil, "milvus", "")
+	mk := func(ch string) *msgstream.MsgPack {
+		s := &wSrc{db: "db", coll: "c-" + ch, parts: []string{"p"}}
+		return &msgstream.MsgPack{BeginTs: 1, EndTs: 2, Msgs: []msgstream.TsMsg{wBuildDML("Insert", s, 2)},
+			StartPositions: []*msgpb.MsgPosition{{ChannelName: ch, MsgID: []byte("s-" + ch)}},
+			EndPositions:   []*msgpb.MsgPosition{{ChannelName: ch, MsgID: []byte("e-" + ch)}}}
+	}
+	doneA, doneB := false, false
+	go func() { w.HandleReplicateMessage(context.Background(), "chA", mk("chA")); doneA = true }()
+	vQuiesce() // A's request is built and its downstream call is being held
+	go func() { w.HandleReplicateMessage(context.Background(), "chB", mk("chB")); doneB = true }()
+	vQuiesce()
+	vQuiesce()
+	vAssert(doneA && doneB, "C07.both-calls-return")
+	vAssert(decodedColl["chA"] == "c-chA", "C07.request-in-flight-still-decodes-to-its-own-messages")
+	vAssert(decodedColl["chB"] == "c-chB", "C07.request-in-flight-still-decodes-to-its-own-messages")
+	vReach("end")
+}
